@@ -340,3 +340,44 @@ def path_blocks(case):
     th, op = cards(case)
     atlas = commons.atlas(th, op)
     return {tuple(ep): atlas.matched_path(ep) for ep in op.evolgrid}
+
+
+def _solve_one(case):
+    try:
+        return ("ok", solve(case))
+    except (NotImplementedError, ValueError) as e:
+        return ("refused", f"{type(e).__name__}: {e}")
+    except Exception as e:  # noqa: BLE001 - reported to the caller, which decides
+        import traceback
+
+        return ("crash", f"{type(e).__name__}: {e}", traceback.format_exc()[-1500:])
+
+
+class SolveRefused(Exception):
+    pass
+
+
+class SolveCrashed(Exception):
+    pass
+
+
+def solve_many(cases, workers=4):
+    """Solve several independent card cases in forked worker processes (module-level patches such as a tightened
+    quadrature are inherited by the children).  Returns the list of operator dictionaries; raises SolveRefused /
+    SolveCrashed like a sequential loop of ``solve`` would have surfaced NotImplementedError / other exceptions."""
+    import multiprocessing as mp
+    from concurrent.futures import ProcessPoolExecutor
+
+    if workers <= 1 or len(cases) <= 1:
+        outs = [_solve_one(c) for c in cases]
+    else:
+        with ProcessPoolExecutor(max_workers=min(workers, len(cases)), mp_context=mp.get_context("fork")) as ex:
+            outs = list(ex.map(_solve_one, cases))
+    res = []
+    for o in outs:
+        if o[0] == "refused":
+            raise SolveRefused(o[1])
+        if o[0] == "crash":
+            raise SolveCrashed(o[1])
+        res.append(o[1])
+    return res
